@@ -205,26 +205,43 @@ CHECKS = {
    design="4/C02"),
 }
 # later amendments of the texts above (old fragment -> new fragment); every old fragment must be present
-AMENDS = {'C02': [('text', 'a rejection triggers a product search for a concrete glyph string on which table and rules differ.', 'a rejection triggers a product search for a concrete glyph string on which table and rules differ. One program in eight has optional items (context groups, `cls?` on the left-hand side, groups in the body) and is first expanded into its alternatives by the model of the expansion proved equal to the specification (C07).')],
+AMENDS = {'C02': [('text', 'a rejection triggers a product search for a concrete glyph string on which table and rules differ.', 'a rejection triggers a product search for a concrete glyph string on which table and rules differ. One program in eight has optional items (context groups, `cls?` on the left-hand side, groups in the body) and is first expanded into its alternatives by the model of the expansion proved equal to the specification (C07).'),
+  ('text', '(C07).', '(C07); one in sixty has a state machine of 30-60 thousand states (more than 65535 while it is built).')],
  'C06': [('text', 'computed from the independent IR, ruleMap ascending.', "computed from the independent IR, ruleMap ascending. One program in six has rules of different leading-context lengths whose actions and constraints read other items (@n, also inside ?:): the code in the font is decompiled and every slot reference must still name the rule's own item after the ANY padding (AdjustSlotRefsForPreAnys).")],
- 'C04': [('text', "(nesting, ranges, late '+=', '&=', '-=')", '(nesting, ranges, late \'+=\', \'&=\', \'-=\'; glyph lists written as glyphid() or through the cmap as codepoint(\'c\'..\'f\'), codepoint("cdef"), unicode(a..b), U+xxxx..U+yyyy)')],
- 'C03': [('text', 'never meets an unknown opcode or truncated operand and ends in a return,', 'never meets an unknown opcode or truncated operand and ends in a return (the executable checker additionally requires exactly one value on the stack at the return),')],
- 'C05': [('note', 'Not covered yet: m-unit scaling, glyph metrics/point()/box() in values,', "Scaled numbers (m / M suffix with a global MUnits) are generated and expected with the compiler's float arithmetic. Not covered yet: glyph metrics/point()/box() in values,")],
+ 'C04': [('text', "(nesting, ranges, late '+=', '&=', '-=')", '(nesting, ranges, late \'+=\', \'&=\', \'-=\'; glyph lists written as glyphid() or through the cmap as codepoint(\'c\'..\'f\'), codepoint("cdef"), unicode(a..b), U+xxxx..U+yyyy)'),
+  ('text', 'U+xxxx..U+yyyy)', 'U+xxxx..U+yyyy; every fifth program compiled with -g and runs of code points the font lacks)')],
+ 'C03': [('text', 'never meets an unknown opcode or truncated operand and ends in a return,', 'never meets an unknown opcode or truncated operand and ends in a return (the executable checker additionally requires exactly one value on the stack at the return),'),
+  ('text', 'and requires libgraphite2 to load and shape with each font.', 'and requires libgraphite2 to load and shape with each font; hand-written programs add collision passes with complexFit glyphs (sub-box records), justification, line-break items, attachment from metrics.')],
+ 'C05': [('note', 'Not covered yet: m-unit scaling, glyph metrics/point()/box() in values,', "Scaled numbers (m / M suffix with a global MUnits) are generated and expected with the compiler's float arithmetic. Not covered yet: glyph metrics/point()/box() in values,"),
+  ('text', '(overlapping classes, environments toggling AttributeOverride, boundary values)', '(overlapping classes, environments toggling AttributeOverride, boundary values; every sixth program on built-in collision.* / sequence.* attributes with a collision pass)')],
  'C10': [('text', 'Tie: 33 single-fault injections', 'Tie: 42 single-fault injections'),
   ('text', 'incl. slot references to inserted items in component references, attribute values and constraints)', 'incl. slot references to inserted items and to line-break items in selectors, associations, component references, attribute values and constraints, item number 0 with and without ANY padding)')],
  'C11': [('text', 'on a corpus of 33 past failures,', 'on a corpus of 46 past failures (incl. preprocessor arithmetic: division by zero in skipped operands, INT_MIN / -1, fatal buffer overflows; the death of gdlpp counts as a crash),')],
- 'C12': [('text', 'fifteen program families (', "nineteen program families (padded rule slots (the 64-slot limit reached through another rule's leading context; above it the program MUST be rejected), script tags around 255/256, justification attribute ids beyond one byte (many ligature components), glyph-attribute count around 65535/65536, ")],
+ 'C12': [('text', 'fifteen program families (', "29 program families (padded rule slots (the 64-slot limit reached through another rule's leading context; above it the program MUST be rejected), script tags around 255/256, justification attribute ids beyond one byte, ligature components per glyph, FSM states around 65535, matched-rule entries around 65535, MaxRuleLoop / MaxBackup, ExtraAscent / ExtraDescent, feature setting values and hidden feature ids around 16 bits, Sill table bytes, glyph-attribute count around 65535/65536, "),
+  ('text', 'Proof: Grc.Lim.guarded_no_wrap', 'Proof: Grc.Writes.classified_fit / guarded_value_unchanged - every one of the 101 narrowing writes (WriteByte / WriteShort with a non-literal argument) of the Silf, Glat, Gloc, Feat and Sill writers, listed from the current source by tools/extract_writes.py, has a row in a classification table (guarded maximum / bit field / derived) and every guarded maximum fits its field (T1 obligations WritesGen.every_write_classified, census_as_classified); Grc.Lim.guarded_no_wrap'),
+  ('note', 'Field widths are my reading of GTF.', 'Field widths are my reading of GTF; that the guard named in a row of the census really bounds the written expression is my reading of the code (tested by the families), not a theorem.')],
  'C13': [('text', 'rejected programs with syntax / semantic / preprocessor errors, + suite programs)', "rejected programs with syntax / semantic / preprocessor errors, a program built on gdlpp's predefined macros, + suite programs)"),
-  ('note', 'wall-clock dependence is not perturbed.', 'wall-clock dependence is perturbed only by one run a few seconds later (enough for a time-of-day macro, not for a date).')],
- 'C14': [('text', '(1-35 passes, insertion-first/deletion/context-only rules, explicit passKeySlot, ANY)', '(1-35 passes, insertion-first/deletion/context-only rules, explicit passKeySlot, ANY, bidi passes with mirror attributes, a rule-less CollisionFix pass before passes with rules)')],
- 'C15': [('text', '(every third one with passes under pass-level feature tests, every fifth with a collision-fixing pass)', '(every third one with passes under pass-level feature tests - nested ifs and if/elseif/else chains, whose rules are visible in the rendered text and whose pass-constraint code must be the conjunction of the tests -, every fifth with a collision-fixing pass, justification values beyond 16 bits)')],
- 'C16': [('text', 'for generated feature and language tables over input fonts', 'for generated feature and language tables (language ids spelled 1036, x040C and 0x040C; boolean features with and without a declared default) over input fonts (Unicode- and symbol-encoded)')],
- 'C17': [('text', 'resolves every glyphid()/unicode()/U+/range/postscript() reference', 'resolves every glyphid()/unicode()/U+/codepoint(\'c\' | "str" | a..b)/range/postscript()/pseudo(glyph, codepoint) reference')],
+  ('note', 'wall-clock dependence is not perturbed.', 'wall-clock dependence is perturbed only by one run a few seconds later (enough for a time-of-day macro, not for a date).'),
+  ('text', "a program built on gdlpp's predefined macros,", "a program built on gdlpp's predefined macros, renamed non-Regular fonts with preferred-name records,")],
+ 'C14': [('text', '(1-35 passes, insertion-first/deletion/context-only rules, explicit passKeySlot, ANY)', '(1-35 passes, insertion-first/deletion/context-only rules, explicit passKeySlot, ANY, bidi passes with mirror attributes, a rule-less CollisionFix pass before passes with rules)'),
+  ('text', 'a rule-less CollisionFix pass before passes with rules)', 'a rule-less CollisionFix pass before passes with rules, key classes touched by set operations or holding -g placeholders, ANY named in a set operation)')],
+ 'C15': [('text', '(every third one with passes under pass-level feature tests, every fifth with a collision-fixing pass)', '(every third one with passes under pass-level feature tests - nested ifs and if/elseif/else chains, whose rules are visible in the rendered text and whose pass-constraint code must be the conjunction of the tests -, every fifth with a collision-fixing pass, justification values beyond 16 bits)'),
+  ('text', 'justification values beyond 16 bits)', 'justification values beyond 16 bits, every seventh with more than 255 glyph attributes read by a rule action); a build that ends with a status other than 0 / 1 is a violation')],
+ 'C16': [('text', 'for generated feature and language tables over input fonts', 'for generated feature and language tables (language ids spelled 1036, x040C and 0x040C; boolean features with and without a declared default) over input fonts (Unicode- and symbol-encoded)'),
+  ('text', 'over input fonts (Unicode- and symbol-encoded)', 'over input fonts (Unicode- and symbol-encoded, highest name id at 255 / 256 / 257)')],
+ 'C17': [('text', 'resolves every glyphid()/unicode()/U+/range/postscript() reference', 'resolves every glyphid()/unicode()/U+/codepoint(\'c\' | "str" | a..b)/range/postscript()/pseudo(glyph, codepoint) reference'),
+  ('text', 'Proof: Grc.Cm.alloc_pseudo_range', "Proof: Grc.Cm.lookup31_eq_lookup / lookup310_eq_lookup (with the loop invariant bsearch_spec) - the compiler's own cmap searches (TtfUtil::Cmap31Lookup: binary search of the endCode array; Cmap310Lookup), transcribed statement by statement, return the format's definition for EVERY code point and every number of segments when the end codes ascend (hypothesis evaluated on each input font; T1: the text of the two functions and of GrcFont::GlyphFromCmap re-extracted on every run, CmapGen.*); Grc.Cm.alloc_pseudo_range"),
+  ('note', "cmap lookup is the format's linear-scan semantics (the compiler's binary search is validated against it, not proved).", "cmap lookup is the format's linear-scan semantics, to which the transcription of the compiler's searches is proved equal (the transcription is tied to the source by text equality, not by a translator).")],
  'C18': [('text', '(include file, object-like and function-like macros', '(include files nested in subdirectories, #if / #elif / #else ladders, CR LF line endings, object-like and function-like macros'),
-  ('text', '(7 cases incl. #error, stray #endif', '(14 cases incl. #error, fatal buffer overflows, stray #endif')],
- 'C19': [('text', 'same string, ./, absolute, symbolic link, hard link)', 'same string, ./, absolute, symbolic link, hard link; the output omitted, with the derived name in dotted directories / dotted file names and with the derived name being the linked input itself)')],
+  ('text', '(7 cases incl. #error, stray #endif', '(14 cases incl. #error, fatal buffer overflows, stray #endif'),
+  ('text', 'object-like and function-like macros', 'object-like and function-like macros (also called with line breaks between name, parenthesis and arguments)')],
+ 'C19': [('text', 'same string, ./, absolute, symbolic link, hard link)', 'same string, ./, absolute, symbolic link, hard link; the output omitted, with the derived name in dotted directories / dotted file names and with the derived name being the linked input itself)'),
+  ('text', 'and a write fault in the middle of the font (RLIMIT_FSIZE) must leave nothing partial.', "a write fault (RLIMIT_FSIZE) at 15 positions of the font must leave nothing partial, and the debugger file (-d) must be the output font's name with its extension replaced, next to it.")],
  'C20': [('text', '(simple and composite glyphs, all glyf flag forms)', '(simple glyphs in all glyf flag forms; composites with offsets, nested composites, components with one scale or separate x/y scales incl. mirrored ones, each scaled coordinate cut to an integer toward zero as TtfUtil does)'),
-  ('note', 'float32 rounding of the compiler is not modelled.', 'float32 rounding of the compiler is not modelled (generated scales are multiples of 1/8, exact in float); 2x2 component transforms are not modelled (glyph skipped, counted).')]}
+  ('note', 'float32 rounding of the compiler is not modelled.', 'float32 rounding of the compiler is not modelled (generated scales are multiples of 1/8, exact in float); 2x2 component transforms are not modelled (glyph skipped, counted).'),
+  ('text', 'complexFit on a random subset.', 'complexFit (as a literal or as an expression over glyph metrics) on a random subset, which is told to the checker: for those glyphs the occupied cells must cover every point even when the bitmap is empty.')],
+ 'C09': [('text', 'Tie: 38 constructed scenarios', 'fsm_failure_touches_nothing (an error found after the state machines are generated: exit 1, the destination neither opened nor removed). Tie: 51 constructed scenarios (incl. a state machine too large for the font, debug files for dotted output paths) and a write fault (file-size limit) at 15 positions of the output font, also inside the last tables; scenarios')],
+ 'C01': [('text', 'over nine program families', 'over nine program families (every third program refers to items by slot aliases declared on the left-hand side, the right-hand side or in the context)')]}
 for _k, _l in AMENDS.items():
     for _f, _a, _b in _l:
         assert _a in CHECKS[_k][_f], (_k, _a)
